@@ -9,7 +9,7 @@ RULE = ('queue machine: real Queue + real backend + scripted relay, every storag
         '(b) Hypothesis histories of <=41 actions (enqueue, release gate k with outcome, timer tick, clock advance, flush, '
         'announce, clean restart) followed by a fair drain. non-trivial = >=2 attempts of one message with a mixed '
         'per-recipient outcome or retry exhaustion, or an announcement/flush/restart; distinct = distinct (config, actions)')
-ASSUMPTIONS = ['recipients of one message are distinct', 'fake redis / object store fidelity (see DESIGN 1.2)',
+ASSUMPTIONS = ['an address may be named twice in one message (verdicts are per address)', 'fake redis / object store fidelity (see DESIGN 1.2)',
                'relay outcomes honour the Relay.attempt contract (mapping keys = recipients)']
 EXHAUSTIVE_NOTE = 'per-recipient outcome histories over <=3 rounds, serial schedule (see rule)'
 
